@@ -8,9 +8,9 @@ C09 — tail calls are free and invisible.
    earlier iterations observe, as the same function evaluated without the optimisation."
 
 The model is `Model/Gen.lean` (generator) + `Model/VM.lean` (VM), following /repo with the
-fixes fc05fc7 (fresh function scope per iteration), 5554b40 (tail flag cleared for let
-initialisers, array elements, …) and c9a2ccf (a self call with the wrong number of operands
-is an ordinary call). Tail position is defined independently in `Spec/TailPos.lean`.
+fixes fc05fc7 (fresh function scope per iteration), 5554b40 + 8aa1632 (tail flag cleared for let
+initialisers, array elements, assignment targets, …), c9a2ccf (a self call with the wrong
+number of operands is an ordinary call) and d5acb02 (C09-02: guard in front of the tail sequence). Tail position is defined independently in `Spec/TailPos.lean`.
 
 Proved here, for programs of every size, every nesting of the contexts and every depth:
 
@@ -43,6 +43,15 @@ Proved here, for programs of every size, every nesting of the contexts and every
                                           still assumes per iteration is the refinement VM.exec ⊑ Bal.CStep);
      `verified_of_generated`              every `fn`/`defn` the model generator makes is verified (C04
                                           `gen_balanced`), so `MatchedBody.verified` holds for them.
+     `tail_guard_passes`                  (fix C09-02) the sequence starts with a guard that looks the
+                                          name up before the operands; it lets the jump happen exactly
+                                          when the name still denotes the function object that is running;
+     `tail_call_falls_back_to_ordinary_call`
+                                          otherwise one step leads, with nothing but `pc` changed, to the
+                                          ordinary `CallExpr` of the same call emitted behind the jump.
+                                          The body stretch of `BodyBalanced` therefore contains a passed
+                                          guard: constant space is claimed for the iterations in which the
+                                          name still denotes the running function, and only for those.
  (d) `TcoTransparent`                     full statement (VM model = reference evaluator), NOT proved;
      `tco_transparent_partial`            the parts proved: the continuation is never dropped
                                           (only tail positions jump), the tail sequence changes
@@ -462,6 +471,75 @@ example : MatchedBody 2 1 atTailCall atTailCall where
   same := ⟨rfl, rfl⟩
   run := Bal.Reach.refl _
   prep := fun x nargs hf => prep_of_fixed 2 atTailCall atTailCall rfl ⟨rfl, rfl⟩ (by decide) rfl x nargs hf
+/-! ### The guard (fix C09-02): jump only while the name still denotes the running function -/
+
+/-- The guard falls through — and the tail sequence is taken, in constant space — exactly when
+the name, looked up before the operands are evaluated (as an ordinary call resolves its callee
+first), denotes the function object that is running. One step of the real loop; nothing but
+`pc` changes. -/
+theorem tail_guard_passes (st : CtlState) (fuel : Nat) (s : St) (p : Nat) (x : String) (args : List Expr)
+    (k : Nat) (argcode rest : List Instr) (sid : Nat)
+    (hat : At s p (selfTailCode x args k argcode ++ rest))
+    (hself : lexLookup s x = some (sid, .fn s.curfunc)) :
+    (runLoop (fuel + 2) st).run s = (runLoop (fuel + 1) st).run { s with pc := s.pc + 1 } ∧
+    At { s with pc := s.pc + 1 } (p + 1) (argcode ++ tailSeq x args.length k ++ [Instr.callExpr (.sym x) args] ++ rest) := by
+  have hat' : At s p (Instr.tailGuard x (argcode.length + k + 4) ::
+      (argcode ++ tailSeq x args.length k ++ [Instr.callExpr (.sym x) args] ++ rest)) := by
+    simpa [selfTailCode, List.append_assoc] using hat
+  exact ⟨runLoop_at (fuel + 1) st hat' (exec_tailGuard_self fuel s x _ sid hself),
+    hat'.next rfl rfl rfl⟩
+
+/-- **Fallback.** When the name no longer denotes the running function — it was rebound, at
+run time, to a non-function, to another function, to another closure of the same template, or
+unbound — the guard skips the operands, `PrepareCall`, every `RemoveScope` and the `Goto`: one
+step later the machine stands, with all four stacks, the scope table and the heap untouched,
+at the instruction `CallExpr x args` — the very instruction the generator emits for the same
+call in a non-tail position (`Tail.call_off`). From there on the tail call *is* the ordinary
+call: callee resolved again, operands evaluated by it, arity and type errors as usual, the
+value left on the stack, the enclosing forms' epilogues, `RemoveScope` of the function scope
+and `Return` still ahead. -/
+theorem tail_call_falls_back_to_ordinary_call (st : CtlState) (fuel : Nat) (s : St) (p : Nat) (x : String)
+    (args : List Expr) (k : Nat) (argcode rest : List Instr)
+    (hat : At s p (selfTailCode x args k argcode ++ rest))
+    (hother : ∀ sid, lexLookup s x ≠ some (sid, .fn s.curfunc)) :
+    (runLoop (fuel + 2) st).run s =
+      (runLoop (fuel + 1) st).run { s with pc := s.pc + ((argcode.length + k + 4 : Nat) : Int) } ∧
+    At { s with pc := s.pc + ((argcode.length + k + 4 : Nat) : Int) } (p + (argcode.length + k + 4))
+      (Instr.callExpr (.sym x) args :: rest) := by
+  have hat' : At s p (Instr.tailGuard x (argcode.length + k + 4) ::
+      (argcode ++ tailSeq x args.length k ++ [Instr.callExpr (.sym x) args] ++ rest)) := by
+    simpa [selfTailCode, List.append_assoc] using hat
+  refine ⟨runLoop_at (fuel + 1) st hat' (exec_tailGuard_other fuel s x _ hother), ?_⟩
+  obtain ⟨pre, post, hcode, hlen⟩ := hat.code
+  refine ⟨by simp [hat.pc], hat.compiled, ?_⟩
+  refine ⟨pre ++ ([Instr.tailGuard x (argcode.length + k + 4)] ++ argcode ++ tailSeq x args.length k), post, ?_, ?_⟩
+  · show (fnOf s s.curfunc).code = _
+    rw [hcode]
+    simp [selfTailCode, List.append_assoc]
+  · simp [tailSeq, hlen]; omega
+
+open ZygoVerif.LegacyTail in
+/-- `atTailCall` moved back to its guard, operands not yet pushed -/
+def atGuard : St := { atTailCall with pc := 2, data := [] }
+
+/-- the same, after someone outside the body did `(set f 7)` -/
+def atGuardRebound : St :=
+  { atGuard with scopes := [ { vars := [("f", intOfLit 7)] },
+                             { vars := [("n", intOfLit 3)], isFunction := true, myFunction := some 2 } ] }
+
+/-- the hypotheses of `tail_guard_passes` are satisfiable … -/
+example : At atGuard 2 (selfTailCode "f" [.sym "n"] 0 [.envToStack "n"] ++ [.removeScope, .ret]) ∧
+    lexLookup atGuard "f" = some (0, .fn atGuard.curfunc) :=
+  ⟨⟨rfl, rfl, [.addFuncScope 2, .popStackPutEnv "n"], [], rfl, rfl⟩, by decide⟩
+
+/-- … and so are those of `tail_call_falls_back_to_ordinary_call` -/
+example : At atGuardRebound 2 (selfTailCode "f" [.sym "n"] 0 [.envToStack "n"] ++ [.removeScope, .ret]) ∧
+    ∀ sid, lexLookup atGuardRebound "f" ≠ some (sid, .fn atGuardRebound.curfunc) := by
+  refine ⟨⟨rfl, rfl, [.addFuncScope 2, .popStackPutEnv "n"], [], rfl, rfl⟩, ?_⟩
+  intro sid h
+  have h7 : lexLookup atGuardRebound "f" = some (0, intOfLit 7) := by decide
+  rw [h7] at h
+  cases h
 
 /-! ### Non-vacuity of (c): a concrete tail site -/
 
